@@ -221,6 +221,9 @@ def run_replace2(root, idmap, plan):
     def cb(node, is_table=False, is_target=False, parent_query=None, **kw):
         if node is None:
             return None
+        if getattr(node, '_verif_marker', False):
+            state['mv'] = state.get('mv', 0) + 1
+            return None
         if id(node) not in idmap and not isinstance(node, (list, tuple, dict, str, int, float)):
             return None
         state['n'] += 1
@@ -231,7 +234,7 @@ def run_replace2(root, idmap, plan):
             return mk if len(mk) > 1 else mk[0]
         return None
     res = query_traversal(root, cb)
-    return (res if res is not None else root), repl
+    return (res if res is not None else root), repl, state.get('mv', 0)
 
 
 def run_visit(root, idmap):
@@ -259,6 +262,9 @@ def run_replace(root, idmap, k):
         if node is None:
             return None
         from mindsdb_sql.parser.ast.base import ASTNode
+        if getattr(node, '_verif_marker', False):
+            state['mv'] = state.get('mv', 0) + 1
+            return None
         if id(node) not in idmap and not isinstance(node, (list, tuple, dict, str, int, float)):
             return None
         state['n'] += 1
@@ -267,7 +273,7 @@ def run_replace(root, idmap, k):
             return marker
         return None
     res = query_traversal(root, cb)
-    return (res if res is not None else root), state['target']
+    return (res if res is not None else root), state['target'], state.get('mv', 0)
 
 
 def run(ctx):
@@ -308,7 +314,7 @@ def run(ctx):
         for k in ks:
             try:
                 root2, idmap2 = make_root()
-                after_root, target = run_replace(root2, idmap2, k)
+                after_root, target, mv = run_replace(root2, idmap2, k)
                 pj = Projector(schema)
                 pj.idmap = dict(idmap2)
                 after = pj.tree(after_root, assign=False)
@@ -317,7 +323,7 @@ def run(ctx):
                               'query_traversal raised when the visitor returned a replacement: %s' % e,
                               {'source': source, 'tree': t_spec, 'k': k})
                 continue
-            traces.append({'kind': 'replace', 't': t_spec, 'target': target, 'after': after})
+            traces.append({'kind': 'replace', 't': t_spec, 'target': target, 'after': after, 'mv': mv})
             meta.append((source, k))
         # two replacements in one run; a select-list item may be answered with a list (spliced in place)
         tg = [g['id'] for g in got if g['target']]
@@ -331,7 +337,7 @@ def run(ctx):
         for plan in plans:
             try:
                 root2, idmap2 = make_root()
-                after_root, repl = run_replace2(root2, idmap2, plan)
+                after_root, repl, mv = run_replace2(root2, idmap2, plan)
                 pj = Projector(schema)
                 pj.idmap = dict(idmap2)
                 after = pj.tree(after_root, assign=False)
@@ -341,7 +347,7 @@ def run(ctx):
                               {'source': source, 'tree': t_spec, 'plan': {str(k_): v for k_, v in plan.items()}})
                 continue
             # a second replacement inside a subtree that was already replaced is never visited: drop unreached ones
-            traces.append({'kind': 'replace2', 't': t_spec, 'repl': repl, 'after': after})
+            traces.append({'kind': 'replace2', 't': t_spec, 'repl': repl, 'after': after, 'mv': mv})
             meta.append((source, 'plan:%s' % sorted(plan.items())))
 
     # spec -> code
@@ -411,7 +417,10 @@ def run(ctx):
                               {'source': source, 'tree': tr['t'], 'got': tr['got']})
         elif v[0] == 'replace2':
             n_repl += 1
-            if v[1] != 'ok':
+            if v[1] == 'replacement-visited':
+                ctx.violation('replacement-visited:list-for-select-item', 'the visitor was called on a node it had itself returned as '
+                              'a replacement', {'source': source, 'plan': k, 'repl': tr['repl'], 'tree': tr['t']})
+            elif v[1] != 'ok':
                 coords = sorted(set(str(locate(tr['t'], r_[0])) + ('[list]' if len(r_[1]) > 1 else '') for r_ in tr['repl']))
                 ctx.violation('replace-many:%s' % '+'.join(coords),
                               'with several replacements in one run (a list for a select-list item is spliced in place) '
